@@ -564,6 +564,9 @@ type env struct {
 	dnsUsed bool // one in-process DnsServer per process
 	works   map[string]bool
 	t       *testing.T
+	// context part of the parse monitor (c18_context_test.go)
+	ctxOther map[string]string
+	ctxSib   map[string]pitem
 }
 
 func (e *env) viol(sig string, d caseDesc, observed interface{}) {
